@@ -167,7 +167,14 @@ class n0dict_(n0dict__):
                     if i:
                         result += "\n"
                     result += self.__xml(itm, indent+inc_indent, inc_indent)
-            elif isinstance(parent, (str, int, float)):
+            elif isinstance(parent, str):
+                # a text item of a list is escaped like a text value (one CDATA section is passed through)
+                cdata = parent.strip()
+                if cdata.startswith("<![CDATA[") and cdata.endswith("]]>") and "]]>" not in cdata[9:-3]:
+                    result += parent
+                else:
+                    result += parent.translate(xml_entities)
+            elif isinstance(parent, (int, float)):
                 result += str(parent)
             else:
                 raise TypeError(f"__xml(..): Unknown type ({type(parent)}) == {parent}")
